@@ -1016,6 +1016,15 @@ impl MerkleTree {
         nodes: &IntMap<Option<Node>>,
     ) -> Result<Either<Vec<StoreInfoInstruction>, ()>, HypercoreError> {
         if let Some(indexed) = indexed {
+            if !flat_tree::Iterator::new(root).contains(indexed.index) {
+                // Walking up from the requested node would never reach the root
+                return Err(HypercoreError::InvalidOperation {
+                    context: format!(
+                        "Requested node {} is not within the tree of node {}",
+                        indexed.index, root
+                    ),
+                });
+            }
             let mut iter = flat_tree::Iterator::new(indexed.index);
             let mut instructions: Vec<StoreInfoInstruction> = Vec::new();
             let mut p_nodes: Vec<Node> = Vec::new();
